@@ -1,0 +1,11 @@
+//go:build verif
+
+// Machine-checked contracts (comment-only; compiled only under the build tag "verif").
+package hpa
+
+// typestate fact (C06): the HPA of the workload has been disabled in this reconcile without error
+//@ fact hpaDisabled
+
+//@ func DisableHPA
+//@ props C06
+//@ sets @hpaDisabled := result == nil
